@@ -760,10 +760,31 @@ def _helper_candidates(repo: Repo, prot: set):
                     chain = at.value
                     while isinstance(chain, ast.Attribute):
                         chain = chain.value
-                    if not (fresh and isinstance(chain, ast.Name) and not h.decorator_list and ndefs.get(name, 0) == 1):
+                    decos_ = [ast.unparse(d_) for d_ in h.decorator_list]
+                    if fresh and decos_ == ["classmethod"] and isinstance(at.value, ast.Name) and at.value.id == f.cls and ndefs.get(name, 0) == 1:
+                        call._inline_recv = at.value          # `Class.h(...)`: cls := the class
+                    elif fresh and not decos_ and ndefs.get(name, 0) == 1 and isinstance(chain, ast.Name):
+                        call._inline_recv = at.value
+                    elif fresh and not decos_ and ndefs.get(name, 0) == 1 and isinstance(getattr(call, "_parent", None), ast.Expr):
+                        # `<expression>.h(args)` as a statement: the receiver is evaluated once into a temporary first
+                        est = call._parent
+                        hold_ = getattr(est, "_parent", None)
+                        blk_r = next((getattr(hold_, fl) for fl in ("body", "orelse", "finalbody") if isinstance(getattr(hold_, fl, None), list) and est in getattr(hold_, fl)), None)
+                        if blk_r is None:
+                            ok = False
+                            break
+                        _HOIST[0] += 1
+                        tn_ = f"_recv__{name.strip('_')}_{_HOIST[0]}"
+                        asg_ = ast.copy_location(ast.Assign(targets=[ast.Name(id=tn_, ctx=ast.Store())], value=at.value), est)
+                        ast.fix_missing_locations(asg_)
+                        blk_r.insert(blk_r.index(est), asg_)
+                        asg_._parent = hold_
+                        at.value = ast.copy_location(ast.Name(id=tn_, ctx=ast.Load()), at)
+                        at.value._parent = at
+                        call._inline_recv = at.value
+                    else:
                         ok = False
                         break
-                    call._inline_recv = at.value
             outer, par = call, getattr(call, "_parent", None)
             awaited = isinstance(par, ast.Await)
             if awaited != isinstance(h, ast.AsyncFunctionDef):
@@ -1267,6 +1288,45 @@ def _is_pure_expr(e) -> bool:
     return False
 
 
+def _forward_tuple_results(fn) -> bool:
+    """`t = (a, b)` ... `x, y = t` (the pair-or-None result of a spliced-in "decide" helper, unpacked by the caller): the unpacking reads
+    the one tuple display that can reach it - a `t = None` definition cannot, unpacking None raises - so it is `x, y = a, b`, provided a and
+    b are locals with a single definition and the tuple is built right before control leaves their region (the next statement is a
+    jump: raise / return / break), so that they cannot change between the display and the unpacking."""
+    changed = False
+    defs: dict[str, list] = {}
+    stores: dict[str, int] = {}
+    for n in own_walk(fn):
+        if isinstance(n, ast.Name) and isinstance(n.ctx, (ast.Store, ast.Del)):
+            stores[n.id] = stores.get(n.id, 0) + 1
+        if isinstance(n, ast.Assign) and len(n.targets) == 1 and isinstance(n.targets[0], ast.Name):
+            defs.setdefault(n.targets[0].id, []).append(n)
+    for n in list(own_walk(fn)):
+        if not (isinstance(n, ast.Assign) and len(n.targets) == 1 and isinstance(n.targets[0], ast.Tuple) and isinstance(n.value, ast.Name)
+                and all(isinstance(e, ast.Name) for e in n.targets[0].elts)):
+            continue
+        t = n.value.id
+        ds = [d for d in defs.get(t, []) if not (isinstance(d.value, ast.Constant) and d.value.value is None)]
+        if len(ds) != 1 or stores.get(t, 0) != len(defs.get(t, [])):
+            continue
+        d = ds[0]
+        if not (isinstance(d.value, ast.Tuple) and len(d.value.elts) == len(n.targets[0].elts) and all(isinstance(e, ast.Name) for e in d.value.elts)):
+            continue
+        if any(stores.get(e.id, 0) != 1 for e in d.value.elts):
+            continue
+        hold = getattr(d, "_parent", None)
+        blk = next((getattr(hold, fl) for fl in ("body", "orelse", "finalbody") if isinstance(getattr(hold, fl, None), list) and d in getattr(hold, fl)), None)
+        if blk is None or blk.index(d) + 1 >= len(blk) or not isinstance(blk[blk.index(d) + 1], (ast.Raise, ast.Return, ast.Break)):
+            continue
+        from .source import clone
+        n.value = ast.copy_location(clone(d.value), n.value)
+        for x in ast.walk(n.value):
+            if hasattr(x, "ctx"):
+                x.ctx = ast.Load()
+        changed = True
+    return changed
+
+
 def _split_parallel_assignments(fn) -> bool:
     """`a, b = x, y` is `a = x; b = y` when no right-hand side reads a target assigned before it (binding a local name has no effect
     of its own, so evaluating x, binding a, evaluating y, binding b is the same as evaluating x, y and binding both)"""
@@ -1350,8 +1410,10 @@ def _forward_pure_temps(fn) -> bool:
                 and ((isinstance(d, ast.Assign) and d.targets == [sts[0]]) or (isinstance(d, ast.AnnAssign) and d.target is sts[0]))):
             continue
         v = d.value
-        if isinstance(v, (ast.Name, ast.Attribute, ast.Constant)) or not _is_pure_expr(v):
+        if isinstance(v, (ast.Attribute, ast.Constant)) or not _is_pure_expr(v):
             continue
+        if isinstance(v, ast.Name) and (v.id in params or v.id in ("self", "cls") or len(stores.get(v.id, [])) != 1):
+            continue        # a plain copy `y = x` is forwarded only for a local x with a single definition
         if any(isinstance(x, ast.Name) and x.id == t for x in ast.walk(v)):
             continue
         holder = getattr(d, "_parent", None)
@@ -1590,7 +1652,12 @@ def resolve_aliases(repo: Repo):
                 for chd in ast.iter_child_nodes(par):
                     chd._parent = par
     for f in repo.all_funcs:
-        ch = _split_parallel_assignments(f.node)
+        ch = _forward_tuple_results(f.node)
+        if ch:
+            for par in ast.walk(f.node):
+                for chd in ast.iter_child_nodes(par):
+                    chd._parent = par
+        ch = _split_parallel_assignments(f.node) or ch
         ch = _canonical_clamps(f.node) or ch
         if ch:
             for par in ast.walk(f.node):
